@@ -63,6 +63,18 @@ PROPS = {
         "level_note": "trusted: DayClock.tla anchors (stated in the property), Civil.tla day numbers (C01), TLC, harness logging",
         "technique": "TLA+ day-clock model checked with TLC + trace validation of day walks",
     },
+    "C08": {
+        "title": "year pillar turns at Lichun, month pillar at each Jie, by the Five-Tigers rule",
+        "mc": {"quick": [{"module": "MC_Pillars", "cfg": "MC_Pillars.cfg", "workers": 2}]},
+        "rule": "civil day walks (catalogue + 40 seeded windows; thorough every date 0001..9998) logging year/month pillar of the sexagenary-day view with the governing term and the Lichun day; "
+                "instants one second before/at/after every Jie instant of sampled (quick) / all (thorough) years plus a random instant per Jie, with the day-level pillars of the same day; every sexagenary month and year of those years. "
+                "Non-trivial: Jie days, Lichun and the day before, last days of a Qi, boundary instants, first/last month of a sexagenary year",
+        "exhaustive": {"quick": False, "thorough": True},
+        "assumptions": ["the governing term of a day/instant is the implementation's get_term_day/get_term (validated by C06); Lichun of year y is SolarTerm::from_index(y, 3)"],
+        "level_text": "TLC checks the pillar model completely (MC_Pillars: Jie-by-Jie stepping reaches exactly the 720 legal pairs and agrees with the Five-Tigers closed form) and validates the real code's day-level and instant-level pillars against it: pillar-year = civil year from the Lichun day/instant on, month = Jie ordinal of the governing term, legal pair, advance exactly on Lichun / Jie days, time view = day view on days without a Jie; thorough covers every date 0001..9998 and +-1 s around all 119,976 Jie instants",
+        "level_note": "trusted: Pillars.tla (Five Tigers from first principles), TermClock/Civil, TLC, harness logging",
+        "technique": "TLA+ pillar model checked exhaustively with TLC + trace validation of day and instant views",
+    },
     "C10": {
         "title": "answers do not depend on call history, thread interleaving or earlier refusals",
         "mc": {
